@@ -525,6 +525,22 @@ func (g *jsGen) expr(d int) string {
 	case 32:
 		return r.Pick([]string{"String.raw", "h"}) + g.template()
 	case 33:
+		if r.Chance(1, 4) {
+			// explicit boolean coercion around && / || whose left operand is not a boolean, used as a value
+			l := r.Pick([]string{"0", "\"\"", "null", "NaN", g.someVar(false), "[].length", "void 0"})
+			rr := r.Pick([]string{g.someVar(false) + ">=1", "\"a\" in {a:1}", g.someVar(false) + "!==" + g.number(), "!" + g.someVar(false), "true"})
+			op := r.Pick([]string{"&&", "&&", "||"})
+			switch r.Intn(4) {
+			case 0:
+				return "(!!(" + l + op + rr + "))"
+			case 1:
+				return "((" + l + op + rr + ")?true:false)"
+			case 2:
+				return "((" + l + op + rr + ")?" + g.number() + ":false)"
+			default:
+				return "((" + l + op + rr + ")?false:true)"
+			}
+		}
 		if r.Chance(1, 3) {
 			// every pairing of strict/loose tests against null/undefined on ONE variable, incl. the same test twice
 			v := g.someVar(false)
@@ -838,7 +854,7 @@ func (g *jsGen) stmt() string {
 	case 11, 12, 13, 14:
 		// if shapes
 		c := g.expr(1)
-		switch r.Intn(9) {
+		switch r.Intn(10) {
 		case 0:
 			return "if(" + c + ")" + g.body()
 		case 1:
@@ -864,6 +880,29 @@ func (g *jsGen) stmt() string {
 		case 7:
 			// dangling else
 			return "if(" + c + ")if(" + g.expr(1) + ")" + g.exprStmt() + "else " + g.exprStmt()
+		case 8:
+			// one branch falls through, the other leaves; a flow statement follows the if
+			if g.inFunc > 0 {
+				leave := func() string {
+					return r.Pick([]string{"return " + g.retExpr() + ";", "return;", "throw " + g.number() + ";"})
+				}
+				work := "{h(" + g.nextSite() + "," + g.someVar(false) + ");" + g.exprStmt() + "}"
+				switch r.Intn(4) {
+				case 0:
+					return "if(" + c + ")" + work + "else{" + leave() + "}" + leave()
+				case 1:
+					return "if(" + c + "){" + leave() + "}else" + work + leave()
+				case 2:
+					return "if(" + c + ")" + work + "else " + leave() + "h(" + g.nextSite() + ",0);" + leave()
+				default:
+					return "if(!(" + c + "))" + work + "else{" + leave() + "}" + leave()
+				}
+			}
+			if g.inLoop > 0 {
+				work := "{h(" + g.nextSite() + "," + g.someVar(false) + ")}"
+				return "if(" + c + ")" + work + "else{break;}" + r.Pick([]string{"break;", "continue;"})
+			}
+			return "if(" + c + "){" + g.exprStmt() + "}else{" + g.exprStmt() + "}"
 		default:
 			return "if(" + c + "){if(" + g.expr(1) + ")" + g.exprStmt() + "}else " + g.exprStmt()
 		}
@@ -956,7 +995,13 @@ func (g *jsGen) stmt() string {
 			g.pop()
 		}
 		if k == 3 || r.Chance(1, 3) {
-			sb.WriteString("finally" + g.block())
+			if g.inFunc > 0 && r.Chance(1, 3) {
+				// a flow statement whose else block declares a lexical name that looks like a generated short name
+				n := r.Pick([]string{"e", "t", "n", "r", "i"})
+				sb.WriteString("finally{if(" + g.expr(2) + ")return " + g.retExpr() + ";else{let " + n + "=" + g.number() + ";h(" + g.nextSite() + "," + n + "," + g.someVar(false) + "," + g.someVar(false) + ")}}")
+			} else {
+				sb.WriteString("finally" + g.block())
+			}
 		}
 		return sb.String()
 	case 26:
